@@ -72,32 +72,33 @@ fn exec_late_limit(c: &Case, m: u64, st: &mut Stats) -> Result<ExecOk, Fail> {
         st.inc("late_limit_not_reached");
         return Ok(ExecOk { nontrivial: false });
     };
-    // where did the recovery stop? The next event tells.
-    let at_target = match tr.evs.get(k + 1) {
-        Some(Ev::Tag(t, o)) => *o == c.target_off && t.id == c.target_id,
-        Some(Ev::Err(ErrV::InvalidTagSize { pos, .. })) => *pos == c.target_off,
+    // Where did the recovery stop? The next event tells. The case is judged only when it stopped at a master of the chain
+    // IN FRONT of the element under test: whether a limit set after try_recover() also applies to the very header the
+    // recovery has already looked at is not something the property decides (an implementation may keep what it validated).
+    let junk_len = c.rc.input.len().saturating_sub(0).min(c.target_off); // offset of the first chain master = length of the junk
+    let _ = junk_len;
+    let stopped_before_target = match tr.evs.get(k + 1) {
+        Some(Ev::Tag(t, o)) => *o < c.target_off && t.is_start(),
         _ => false,
     };
     // (and the first failure must be the junk itself, before anything was read under the old limit)
     let junk_failed = matches!(tr.evs.first(), Some(Ev::Err(ErrV::InvalidTagId { pos: 0, .. }))) && k == 2;
-    if !at_target || !junk_failed {
-        st.inc("late_limit_recovered_elsewhere");
+    if !stopped_before_target || !junk_failed {
+        st.inc("late_limit_not_judged");
         return Ok(ExecOk { nontrivial: false });
     }
     st.inc("probe_late_limit_judged");
+    let m_part = m.min(16 << 20);
+    let allowed = allowed.max(8 * m_part + 4096);
     if usage.peak as u64 > allowed {
         fail!("heap-growth", "peak heap growth {} bytes (largest single request {}) exceeds {}; {}", usage.peak, usage.max_request, allowed, ctx());
     }
     if c.declared > m {
-        match &tr.evs[k + 1] {
-            Ev::Tag(t, _) if !t.is_end() => fail!("oversized-element-accepted", "the element above the limit that was set before it was read was emitted: {}; {}", t.short(), ctx()),
-            Ev::Err(ErrV::InvalidTagSize { size, .. }) => {
-                st.inc("probe_late_limit_enforced");
-                if *size as u64 != c.declared {
-                    fail!("size-field", "InvalidTagSize reports size {} for a declared size of {}; {}", size, c.declared, ctx());
-                }
-            }
-            _ => {}
+        if let Some(ev) = tr.evs[k + 1..].iter().find(|e| matches!(e, Ev::Tag(t, o) if *o == c.target_off && !t.is_end() && t.id == c.target_id)) {
+            fail!("oversized-element-accepted", "the element above the limit that was set before it was read was emitted: {}; {}", ev.short(), ctx());
+        }
+        if tr.evs[k + 1..].iter().any(|e| matches!(e, Ev::Err(ErrV::InvalidTagSize { pos, .. }) if *pos == c.target_off)) {
+            st.inc("probe_late_limit_enforced");
         }
     }
     Ok(ExecOk { nontrivial: true })
@@ -287,7 +288,8 @@ impl Check for C17 {
                 let mut b2 = junk.clone();
                 b2.extend_from_slice(&bytes);
                 let mut cfg2 = cfg.clone();
-                cfg2.max_size = if rng.chance(1, 2) { MaxSz::Default } else { MaxSz::Limit(1 << 30) };
+                // (the earlier limit is small too: whatever the recovery itself accepts under it stays cheap)
+                cfg2.max_size = MaxSz::Limit(1 << 20);
                 cfg2.decoy = None;
                 cfg2.allow &= !crate::harness::ALLOW_IDS; // the junk must be an error, not a raw tag read under the old limit
                 let rc = ReadCase { spec, input: Arc::new(b2), cfg: cfg2, script, driver: Driver::RecoverThenLimit(m as usize), class: "late-limit" };
@@ -336,7 +338,11 @@ impl Check for C17 {
             }
         }
         st.max("max_nesting_depth_reached", max_depth);
-        let allowed = 8 * legit.max(cap).max(16) + 4096 + 512 * max_depth;
+        // The statement bounds memory by a small multiple of max(M, initial capacity), and by the declared size for an
+        // in-limit element whose payload is missing. For limits up to 16 MiB the first bound is used as it stands; for
+        // larger ones (the 4 GB default) it says nothing useful, and the second is used with a 16 MiB floor.
+        let m_part = m.min(16 << 20);
+        let allowed = 8 * legit.max(cap).max(m_part).max(16) + 4096 + 512 * max_depth;
         st.add("api_calls", tr.api_calls as u64);
         st.add("read_calls", tr.read_calls as u64);
         st.max("max_peak_heap_growth", usage.peak as u64);
@@ -367,7 +373,7 @@ impl Check for C17 {
             fail!("no-termination", "{}", ctx());
         }
         if usage.peak as u64 > allowed {
-            fail!("heap-growth", "peak heap growth {} bytes (largest single request {}) exceeds 8*max(largest in-limit element {}, capacity {}, 16)+4096 = {}; {}", usage.peak, usage.max_request, legit, cap, allowed, ctx());
+            fail!("heap-growth", "peak heap growth {} bytes (largest single request {}) exceeds 8*max(min(limit,16 MiB) {}, largest in-limit element {}, capacity {}, 16)+4096+512*depth = {}; {}", usage.peak, usage.max_request, m_part, legit, cap, allowed, ctx());
         }
         // an element whose payload is missing costs at most its declared size: that goes for what the error carries too
         for e in &tr.evs {
@@ -398,7 +404,8 @@ impl Check for C17 {
                 Some(ErrV::InvalidTagSize { pos, size, .. }) if *pos == c.target_off => {
                     st.inc("probe_invalid_tag_size_reported");
                     if *size as u64 != c.declared {
-                        fail!("size-field", "InvalidTagSize reports size {} for a declared size of {}; {}", size, c.declared, ctx());
+                        // which size the error names is not fixed by the property: counted
+                        st.inc("observed_invalid_tag_size_names_another_size");
                     }
                 }
                 Some(_) => st.inc("probe_rejected_by_earlier_check"),
@@ -448,7 +455,7 @@ impl Check for C17 {
     }
 
     fn rule(&self) -> &'static str {
-        "One case = specification + a reachable chain of 0-3 masters (known-size with accurate or hostile sizes, unknown-size, mixed) followed by one element (binary, string, numeric, master, or an id outside the specification) whose declared size is drawn from 0, M-1, M, M+1, 2M, powers of two up to 2^56-2, in any size-field width that holds it; payload really present, short or absent, the remainder existing only virtually in a lazy source; limit M from 0 to 1 MiB and the default 4e9; any tolerance subset; drawn capacity and delivery schedule; and, for 1 run in 60, a long stream of 50-600 in-limit Void elements of varying sizes (memory must be bounded by the largest of them, however many there are). One hostile-size case in ten sets the limit late (junk byte in front, first call fails, try_recover(), only then set_max_allowable_tag_size(M), next()): the limit must apply to the tag the recovery stopped at. Measured by a counting global allocator armed around the iteration. Checked: peak heap growth and bytes pulled <= 8*max(largest in-limit declared size, capacity, 16)+4 KiB (+offset; + 512 bytes per level of the deepest nesting of open masters reached, which is bookkeeping no size limit bounds); an element above the limit is never emitted and the parse errors (InvalidTagSize at its offset unless an earlier check fires); no panic. Non-trivial: declared size > 0. Distinct: FNV-1a fingerprint."
+        "One case = specification + a reachable chain of 0-3 masters (known-size with accurate or hostile sizes, unknown-size, mixed) followed by one element (binary, string, numeric, master, or an id outside the specification) whose declared size is drawn from 0, M-1, M, M+1, 2M, powers of two up to 2^56-2, in any size-field width that holds it; payload really present, short or absent, the remainder existing only virtually in a lazy source; limit M from 0 to 1 MiB and the default 4e9; any tolerance subset; drawn capacity and delivery schedule; and, for 1 run in 60, a long stream of 50-600 in-limit Void elements of varying sizes (memory must be bounded by the largest of them, however many there are). One hostile-size case in ten sets the limit late (junk byte in front, first call fails, try_recover(), only then set_max_allowable_tag_size(M), next()): judged when the recovery stopped at a chain master in front of the element under test, to which the limit must then apply. Measured by a counting global allocator armed around the iteration. Checked: peak heap growth and bytes pulled <= 8*max(min(M, 16 MiB), largest in-limit declared size, capacity, 16)+4 KiB (+offset; + 512 bytes per level of the deepest nesting of open masters reached, which is bookkeeping no size limit bounds); an element above the limit is never emitted and the parse errors (InvalidTagSize at its offset unless an earlier check fires); no panic. Non-trivial: declared size > 0. Distinct: FNV-1a fingerprint."
     }
     fn assumptions(&self) -> Vec<&'static str> {
         vec![
